@@ -326,7 +326,7 @@ def replay_file(ctx, path, props, cfg=None):
     validate(ctx, tf, cfg, props, "replay (recorded trace) of " + os.path.basename(path))
 
 
-def real_families(ctx, name, n_main, n_def, props, seed_off=0, prom=False, want=()):
+def real_families(ctx, name, n_main, n_def, props, seed_off=0, prom=False, want=(), n_focus=12):
     """The two real-socket families every UDP check runs:
       main: validator = loopback + RequirePublicIP, IP-literal destinations (IPv4, IPv6, port 53, eth0, ULA forbidden)
       def : the handler's DEFAULT validator (RequirePublicIP; SetTargetIPValidator not called) with destinations also named
@@ -334,13 +334,17 @@ def real_families(ctx, name, n_main, n_def, props, seed_off=0, prom=False, want=
     In both, every other behaviour drives Handle with the packet conn of service.NewListenerManager().ListenPacket (the
     production path), the others with a plain net.ListenUDP socket.  Returns [(family, behs, trace, sums)]."""
     out = []
+    # focus: two clients, one key, destinations {A, port-53 B, unsendable}: a send that FAILS on a live association (the
+    #        association, its deadline and its socket must stay), a DNS query answered by another host first, ...
     for fam, gencfg, tracecfg, n, validator in (("main", "Gen_UdpNatReal.cfg", "UdpNatTraceReal.cfg", n_main, "loopback"),
-                                                ("def", "Gen_UdpNatRealDef.cfg", "UdpNatTraceRealDef.cfg", n_def, "default")):
+                                                ("def", "Gen_UdpNatRealDef.cfg", "UdpNatTraceRealDef.cfg", n_def, "default"),
+                                                ("focus", "Gen_UdpNatRealFocus.cfg", "UdpNatTraceReal.cfg", n_focus, "loopback")):
         if n <= 0:
             continue
-        behs = gen(ctx, gencfg, n, seed=ctx.seed + seed_off + (0 if fam == "main" else 500009))
+        behs = gen(ctx, gencfg, n, seed=ctx.seed + seed_off + {"main": 0, "def": 500009, "focus": 900001}[fam])
         trace, sums = run_real(ctx, behs, "%s-%s" % (name, fam), prom=prom, validator=validator)
-        desc = "real sockets, %s validator%s" % ("loopback+public" if fam == "main" else "default (RequirePublicIP), host-name destinations",
+        desc = "real sockets, %s validator%s" % ({"main": "loopback+public", "focus": "loopback+public (focused family: failing sends, DNS + other host)"}.get(
+            fam, "default (RequirePublicIP), host-name destinations"),
                                                  ", Prometheus collectors" if prom else "")
         validate(ctx, trace, tracecfg, props, desc, behs)
         summary_violations(ctx, sums, behs, desc, set(want))
